@@ -93,10 +93,13 @@ Theorem C11_client_t1_nothing_sent : forall g now c, ckb c = [] -> ctmo_t1 g now
 Proof. exact client_t1_empty. Qed.
 
 (* t3: TESTFR act after t3 without reception, supervised by t1; closed when it stays unanswered, not before *)
-Theorem C11_client_t3_fires : forall g now c, ctmo_u now c = false -> cnt3 c < now -> couttest c <= 2 ->
+Theorem C11_client_t3_fires : forall g now c, cumt c = 0 -> cnt3 c < now -> couttest c <= 2 ->
   exists c1, ctmo_t3 g now c = (c1, true, [CTx (enc_u 67) (cwmode c =? 0)]) /\ cumt c1 = now + cc_t1 g * 1000 /\
              cnt3 c1 = now + cc_t3 g * 1000 /\ couttest c1 = couttest c + 1.
 Proof. exact client_t3_sends_testfr. Qed.
+Theorem C11_client_t3_pending_keeps_deadline : forall g now c, cumt c <> 0 -> cnt3 c < now ->
+  exists c1, ctmo_t3 g now c = (c1, true, []) /\ cumt c1 = cumt c /\ cnt3 c1 = now + cc_t3 g * 1000.
+Proof. exact client_t3_pending. Qed.
 Theorem C11_client_t3_not_before : forall g now c, now <= cnt3 c -> ctmo_t3 g now c = (c, true, []).
 Proof. exact client_t3_quiet. Qed.
 Theorem C11_client_testfr_t1 : forall g now c, cumt c <> 0 -> cumt c < now -> chandle_timeouts g now c = (c, false, []).
